@@ -13,6 +13,7 @@ import (
 	"context"
 	"fmt"
 	"math/rand/v2"
+	"runtime"
 	"sort"
 	"strings"
 	"testing"
@@ -532,7 +533,7 @@ func (h *c19Hist) drain(metric string) {
 }
 
 func (h *c19Hist) reopen() bool {
-	if err := h.db.Close(); err != nil {
+	if err := mdkClose(h.db); err != nil {
 		h.viol("reopen/close-error", err.Error(), nil)
 		return false
 	}
@@ -578,7 +579,7 @@ func c19RunHistory(r *verifkit.Run, w *verifkit.Worker, idx, nOps int) {
 	h.db = db
 	defer func() {
 		if h.db != nil {
-			_ = h.db.Close()
+			_ = mdkClose(h.db)
 		}
 	}()
 	metrics := []string{"m0", "m1", "metric with space", ""}[:2+rnd.IntN(3)]
@@ -668,4 +669,5 @@ func TestVerifC19(t *testing.T) {
 			w.Count("histories", 1)
 		}
 	})
+	r.SetCounter("goroutines_at_end", int64(runtime.NumGoroutine()))
 }
